@@ -54,11 +54,24 @@ def run(ctx):
         ctx.ob("R-WHO", "%s:fields-private" % short(adt), priv, "all fields of %s are private" % adt)
         sites = [x for x in aggregates_of(f, adt) if not is_derived(x[0])]
         fns = sorted({root_fn(f, x[0].name) for x in sites})
+        off = "path_start" if adt.endswith("Rsync") else "path_idx"
+        # Who may write `Adt { .. }`: the parsing constructor, join (checked extension, offsets copied: rules below) —
+        # and code that only re-wraps self's buffer, or a prefix of it cut at or after the path offset, with self's
+        # offsets (a `parent` that slices instead of truncating a clone).  The latter are recognised by what they build.
         allowed = {adt + "::from_bytes", adt + "::join"}
-        extra = [x for x in fns if x not in allowed and "arbitrary::Arbitrary" not in x and "::arbitrary" not in x]
+        lit_cuts = {}
+        for bd, bi, si, st in sites:
+            w = root_fn(f, bd.name)
+            if w in allowed or "arbitrary::Arbitrary" in w or "::arbitrary" in w:
+                continue
+            ok_, det_ = literal_cut(f, bd, st, adt, bytes_f, off)
+            prev = lit_cuts.get(w)
+            lit_cuts[w] = (ok_ and (prev is None or prev[0]), det_ if prev is None or prev[0] else prev[1])
+        extra = [x for x, (ok_, _) in sorted(lit_cuts.items()) if not ok_]
         ctx.ob("R-WHO", "%s:literal-sites" % short(adt), not extra and adt + "::from_bytes" in fns,
-               "%s {..} is built only in from_bytes, join (and the test-support Arbitrary impl)" % short(adt),
-               detail={"sites": fns})
+               "%s {..} is built only in from_bytes, join (and the test-support Arbitrary impl), or as a prefix of self "
+               "cut at or after the path offset with self's offsets" % short(adt),
+               detail={"sites": fns, "not a prefix copy of self": {x: lit_cuts[x][1] for x in extra} or None})
         # join copies the offsets of self
         for bd, bi, si, st in sites:
             if root_fn(f, bd.name) != adt + "::join":
@@ -93,7 +106,6 @@ def run(ctx):
         for k, v in writers.items():
             if k.startswith(bytes_f):
                 bw |= v
-        off = "path_start" if adt.endswith("Rsync") else "path_idx"
         # Who may touch the buffer: unshare (copy), path_into_dir (append '/'), join (a clone whose buffer is replaced by
         # the checked, extended one) — and any function that does nothing to it but cut it at or after the path offset
         # (parent is one; a new `to_module` would be another).  The latter are recognised by what they do.
@@ -102,8 +114,16 @@ def run(ctx):
         for w in sorted(bw - fixed):
             wb = f.body(w)
             cutters[w] = shrinks_only(f, wb, adt, bytes_f, off) if wb is not None else (False, "no body")
-        if adt + "::parent" not in cutters and f.body(adt + "::parent") is not None:
-            cutters[adt + "::parent"] = shrinks_only(f, f.body(adt + "::parent"), adt, bytes_f, off, need_site=True)
+        for w, (ok_, det_) in lit_cuts.items():
+            if w in cutters:
+                cutters[w] = (cutters[w][0] and ok_, {"buffer": cutters[w][1], "literal": det_})
+            else:
+                cutters[w] = (ok_, det_)
+        # parent itself must cut somewhere (the obligation is not to pass for want of anything to look at)
+        pn = adt + "::parent"
+        if f.body(pn) is not None and not (pn in lit_cuts and "cut" in lit_cuts[pn][1]):
+            r = shrinks_only(f, f.body(pn), adt, bytes_f, off, need_site=True)
+            cutters[pn] = r if pn not in lit_cuts else (r[0] and lit_cuts[pn][0], {"buffer": r[1], "literal": lit_cuts[pn][1]})
         ctx.ob("R-WHO", "%s:bytes-mutators" % short(adt), all(ok for ok, _ in cutters.values()),
                "the byte buffer of %s is modified after construction only by unshare (copy), path_into_dir (append '/'), "
                "join (checked extension) and functions that only truncate it at ≥ the path offset" % short(adt),
@@ -452,6 +472,24 @@ def _fn_frame(fr, fn_t, args):
     return _Frame(fr.f, cb, env, fr)
 
 
+def _frame_of(f, b, depth=0):
+    """The frame of body `b`: a closure body is read with its captures bound to the values at its creation site (in
+    the frame of the function that creates it, recursively)."""
+    if "::{closure" not in b.name or not b.rec.get("root") or depth > 4:
+        return _Frame(f, b)
+    pb = f.body(b.name.rsplit("::{closure", 1)[0])
+    if pb is None:
+        return _Frame(f, b)
+    pfr = _frame_of(f, pb, depth + 1)
+    for blk in pb.blocks:
+        for st in blk["stmts"]:
+            if st["s"] == "assign" and st["rv"]["r"] == "agg" and st["rv"].get("def") == b.name:
+                fr = _fn_frame(pfr, pfr.sym.rvalue(st["rv"]), [])
+                if fr is not None:
+                    return fr
+    return _Frame(f, b, {}, pfr)
+
+
 _STD = ("core", "std", "alloc")
 _PAYLOAD_VARIANTS = ("Some", "Ok", "Continue")
 
@@ -568,7 +606,7 @@ def _ge_payload(fr, o, off, seen):
         if std and name == "and_then" and len(a) == 2:
             return _ge_fn(fr, a[1], [_payload_of(a[0])], off, seen, payload=True)
         if std and name in ("filter", "ok_or", "ok_or_else", "ok", "map_err", "copied", "cloned", "inspect", "take",
-                            "branch", "or_else_none") and len(a) >= 1:
+                            "branch") and len(a) >= 1:
             return _ge_payload(fr, a[0], off, seen)
         if std and name in ("or", "xor") and len(a) == 2:
             return _ge_payload(fr, a[0], off, seen) and _ge_payload(fr, a[1], off, seen)
@@ -589,13 +627,13 @@ def _ge_payload(fr, o, off, seen):
 
 def at_or_after(f, b, term, off, depth=0):
     """Is the usize `term` of body `b` ≥ self.<off> whatever the inputs (see _ge)."""
-    return _ge(_Frame(f, b), term, off, frozenset())
+    return _ge(_frame_of(f, b), term, off, frozenset())
 
 
 def prefix_cut(f, b, term, bytes_f):
     """If `term` is a prefix of self's byte buffer — `self.bytes.slice(..n)`, `.slice(0..n)`, `&self.bytes[..n]` (copied),
     `split_at(n).0`, `clone().split_to(n)` — the length term n; else None."""
-    fr = _Frame(f, b)
+    fr = _frame_of(f, b)
     t = strip_deep(term)
     while t[0] == "mvar":
         t = strip_deep(t[3])
@@ -619,7 +657,7 @@ def prefix_cut(f, b, term, bytes_f):
     if t[0] == "call":
         info = t[3] or {}
         name, a = info.get("name"), t[2]
-        if name in ("copy_from_slice", "from_static") and len(a) == 1:
+        if name == "copy_from_slice" and len(a) == 1:
             return prefix_cut(f, b, a[0], bytes_f)
         if name in ("slice", "index", "get_unchecked") and len(a) == 2 and is_buf(a[0]):
             return range_end(a[1])
@@ -632,24 +670,98 @@ def prefix_cut(f, b, term, bytes_f):
     return None
 
 
+def _copy_of_self(f, b, t, adt, bytes_f):
+    """Is the `adt` value `t` self or a copy of it: `self`, `self.clone()`, or a literal repeating every field of self."""
+    fr = _frame_of(f, b)
+    t = strip_deep(t)
+    while t[0] == "mvar":
+        t = strip_deep(t[3])
+    if fr.is_self(t):
+        return True
+    if t[0] == "agg" and t[1] == adt:
+        return all(strip_deep(v)[0] == "field" and str(strip_deep(v)[2]) == str(k) and fr.is_self(strip_deep(v)[1])
+                   for k, v in t[3])
+    return False
+
+
+def literal_cut(f, b, st, adt, bytes_f, off):
+    """(ok, detail) for a struct literal of `adt` outside the parsing constructor: it repeats self's offsets and its
+    buffer is self's buffer, or a prefix of it cut at or after the path offset."""
+    fr = _frame_of(f, b)
+    t = K.sym_of(b).rvalue(st["rv"])
+    flds = {str(k): strip_deep(v) for k, v in t[3]}
+    det = {"literal": {k: render(v)[:160] for k, v in flds.items()}, "problems": []}
+    for k, v in flds.items():
+        if k == bytes_f:
+            continue
+        if not (v[0] == "field" and str(v[2]) == k and fr.is_self(v[1])):
+            det["problems"].append("offset %s is not self.%s" % (k, k))
+    bv = flds.get(bytes_f)
+    if bv is None:
+        det["problems"].append("no buffer field")
+    else:
+        x = bv
+        while x[0] == "mvar":
+            x = strip_deep(x[3])
+        if not (x[0] == "field" and str(x[2]) == bytes_f and fr.is_self(x[1])):
+            n = prefix_cut(f, b, bv, bytes_f)
+            if n is None:
+                det["problems"].append("buffer is not a prefix of self.%s" % bytes_f)
+            else:
+                ok = at_or_after(f, b, n, off)
+                det["cut"] = {"length": render(strip_deep(n))[:200], "at or after self.%s" % off: ok}
+                if not ok:
+                    det["problems"].append("prefix length not shown to be ≥ self.%s" % off)
+    return (not det["problems"], det)
+
+
 def shrinks_only(f, b, adt, bytes_f, off, need_site=False):
-    """(ok, detail): everything this function does to the byte buffer of an `adt` value is cutting it at a length that is
-    at or after the path offset of self (Bytes::truncate / split_off)."""
+    """(ok, detail): everything this function (with its closures) does to the byte buffer of an `adt` value is cutting
+    the buffer of (a copy of) self at a length that is at or after the path offset of self — Bytes::truncate /
+    split_off, or replacing it by such a prefix of itself."""
+    detail = {"cuts": [], "problems": []}
+    for bd in [b] + [f.body(n) for n in f.children(b.name) if f.body(n) is not None]:
+        _shrinks_scan(f, bd, adt, bytes_f, off, detail)
+    if need_site and not detail["cuts"]:
+        detail["problems"].append("no truncation found")
+    return (not detail["problems"], detail)
+
+
+def _shrinks_scan(f, b, adt, bytes_f, off, detail):
     from props.C14 import _root_local
     s = K.sym_of(b)
-    detail = {"cuts": [], "problems": []}
     mut_locals = set()
+
+    def is_buf_place(pl):
+        return any(p[0] == "f" and p[1] == bytes_f and p[2] == adt for p in pl["p"])
+
+    def owner_term(pl):
+        """The `adt` value whose buffer the place is."""
+        i = [j for j, p in enumerate(pl["p"]) if p[0] == "f" and p[1] == bytes_f and p[2] == adt][0]
+        return s.place({"l": pl["l"], "p": pl["p"][:i]})
     for bi, blk in enumerate(b.blocks):
         if b.is_cleanup(bi):
             continue
         for st in blk["stmts"]:
             if st["s"] != "assign":
                 continue
-            if any(p[0] == "f" and p[1] == bytes_f and p[2] == adt for p in st["pl"]["p"]):
-                detail["problems"].append("assigns the buffer (line %s)" % (st.get("sp") or ["?"])[0])
+            if is_buf_place(st["pl"]):
+                if not _copy_of_self(f, b, owner_term(st["pl"]), adt, bytes_f):
+                    detail["problems"].append("modifies a URI that is not (a copy of) self")
+                n = prefix_cut(f, b, s.rvalue(st["rv"]), bytes_f)
+                if n is None:
+                    detail["problems"].append("assigns the buffer (line %s)" % (st.get("sp") or ["?"])[0])
+                else:
+                    ok = at_or_after(f, b, n, off)
+                    detail["cuts"].append({"assign": "prefix of self.%s" % bytes_f, "length": render(strip_deep(n))[:200],
+                                           "at or after self.%s" % off: ok})
+                    if not ok:
+                        detail["problems"].append("prefix length not shown to be ≥ self.%s" % off)
             rv = st["rv"]
-            if rv["r"] == "ref" and rv.get("mut") and any(p[0] == "f" and p[1] == bytes_f and p[2] == adt for p in rv["pl"]["p"]):
+            if rv["r"] == "ref" and rv.get("mut") and is_buf_place(rv["pl"]):
                 mut_locals.add(st["pl"]["l"])
+                if not _copy_of_self(f, b, owner_term(rv["pl"]), adt, bytes_f):
+                    detail["problems"].append("modifies a URI that is not (a copy of) self")
     for c in b.calls():
         if b.is_cleanup(c.bb):
             continue
@@ -671,9 +783,6 @@ def shrinks_only(f, b, adt, bytes_f, off, need_site=False):
             mut_locals.add(c.dest["l"])
         else:
             detail["problems"].append("hands the buffer to %s" % (c.res or c.name))
-    if need_site and not detail["cuts"]:
-        detail["problems"].append("no truncation found")
-    return (not detail["problems"], detail)
 
 
 _ELEMENTWISE = {"for_each", "map", "inspect", "all", "any", "filter", "find", "position", "take_while", "skip_while",
